@@ -761,7 +761,11 @@ def fine_attributable(case, res):
                     x["hdc"] = True
                 x["gone"] = True
         elif e[0] == 7 and e[1] < len(eps):
-            eps[e[1]]["gone"] = True
+            # Remove(handle) by a caller that got the endpoint through the fast path while its creator had not returned
+            x = eps[e[1]]
+            if not x["gone"] and not x["ret"]:
+                x["hdc"] = True
+            x["gone"] = True
     return bool(bad) and all(bad)
 
 
